@@ -294,6 +294,39 @@ def r26_5(ctx, rep):
         raise MechanismMissing(R, "fewer than 2 per-model local variables found")
 
 
+@SPEC.rule(
+    "R26.6",
+    "translate() reports every failure: from every exception handler and every log.error/log.exception in translate(), "
+    "every path to the function's exit goes through `return False` or a raise — never `return True` or any other value",
+)
+def r26_6(ctx, rep):
+    R = "R26.6"
+    fn = ctx.func(CLI, "translate", R)
+    cfg = CFG(fn, R)
+    fails = {x.id for x in cfg.stmts() if isinstance(x.ast, ast.Return) and isinstance(x.ast.value, ast.Constant) and x.ast.value.value is False}
+    fails |= {x.id for x in cfg.stmts() if isinstance(x.ast, ast.Raise)}
+    sites = [x for x in cfg.nodes if x.kind == "handler" or _is_log_error(x)]
+    if not any(x.kind == "handler" for x in sites):
+        raise MechanismMissing(R, "translate() has no exception handler: a backend failure would escape instead of being reported as False")
+    k = {}
+    for x in sites:
+        w = cfg.path(x.id, cfg.exit, avoid=fails - {x.id})
+        if x.kind == "handler":
+            label = "handler `except %s`" % (norm(x.ast.type) if x.ast.type is not None else "")
+        else:
+            label = "log %s" % "; ".join(norm(c.args[0])[:50] for c in calls(x.ast) if call_name(c) in ("log.error", "log.exception", "log.critical") and c.args)
+        k[label] = k.get(label, 0) + 1
+        if k[label] > 1:
+            label += " #%d" % k[label]
+        rep.ob(R, CLI + ":translate", label, w is None,
+               "after this failure some path leaves translate() without `return False`: main() counts a model as failed only "
+               "when translate() returns False, so the exit status under-counts", path=cfg.describe(w) if w else "")
+    rets = [x for x in cfg.stmts() if isinstance(x.ast, ast.Return)]
+    rep.ob(R, CLI + ":translate", "boolean results only",
+           all(isinstance(r.ast.value, ast.Constant) and isinstance(r.ast.value.value, bool) for r in rets) and bool(rets),
+           "translate() must return True or False")
+
+
 # -- seeded variants ---------------------------------------------------------
 from ._mut import delete_stmt_where, replace_in_func  # noqa: E402
 
@@ -359,3 +392,16 @@ def _m5(mod):
         return False
 
     return mod if replace_in_func(mod, "main", edit) else None
+
+
+@SPEC.mutant("write-error handler returns False only at non-debug level", CLI, "R26.6", "except OSError")
+def _m6(mod):
+    def edit(fn):
+        for h in ast.walk(fn):
+            if isinstance(h, ast.ExceptHandler) and norm(h.type) == "OSError" and isinstance(h.body[-1], ast.Return) and isinstance(h.body[0], ast.If):
+                r = h.body.pop()
+                h.body[0].orelse.append(r)
+                return True
+        return False
+
+    return mod if replace_in_func(mod, "translate", edit) else None
